@@ -1,0 +1,38 @@
+//go:build verif
+
+// Contracts for the body element list, second batch (property C08): the two filtered views and the
+// remaining appenders of document.go / table.go / math.go, read by /verif/engine (govc).
+// Comments only: with or without the build tag this file adds no code to the package.
+package document
+
+// tableCount(es, j): number of tables among es[0:j] (isTable is defined with the clone contracts).
+//@ spec tableCount(es []any, j int) int = ite(j <= 0, 0, tableCount(es, j - 1) + ite(isTable(es[j-1]), 1, 0))
+
+// GetParagraphs / GetTables: the paragraphs (tables) of the body in body order, in a fresh slice; nothing is written.
+//@ func (*Body).GetParagraphs
+//@ props C08
+//@ requires b != nil
+//@ modifies nothing
+//@ ensures len(result) == old(paraCount(b.Elements, len(b.Elements))) && freshArr(result)
+//@ ensures forall j int :: 0 <= j && j < len(b.Elements) && isPara(b.Elements[j]) ==> result[old(paraCount(b.Elements, j))] == b.Elements[j].(*Paragraph)
+//@ loop 1
+//@   invariant 0 <= #i && #i <= len(b.Elements) && unchangedHeap()
+//@   invariant len(paragraphs) == old(paraCount(b.Elements, #i)) && freshArr(paragraphs)
+//@   invariant forall j int :: 0 <= j && j <= #i ==> 0 <= old(paraCount(b.Elements, j))
+//@   invariant forall j int :: 0 <= j && j < #i && isPara(b.Elements[j]) ==> old(paraCount(b.Elements, j)) < len(paragraphs)
+//@   invariant forall j int :: 0 <= j && j < #i && isPara(b.Elements[j]) ==> paragraphs[old(paraCount(b.Elements, j))] == b.Elements[j].(*Paragraph)
+//@   decreases len(b.Elements) - #i
+
+//@ func (*Body).GetTables
+//@ props C08
+//@ requires b != nil
+//@ modifies nothing
+//@ ensures len(result) == old(tableCount(b.Elements, len(b.Elements))) && freshArr(result)
+//@ ensures forall j int :: 0 <= j && j < len(b.Elements) && isTable(b.Elements[j]) ==> result[old(tableCount(b.Elements, j))] == b.Elements[j].(*Table)
+//@ loop 1
+//@   invariant 0 <= #i && #i <= len(b.Elements) && unchangedHeap()
+//@   invariant len(tables) == old(tableCount(b.Elements, #i)) && freshArr(tables)
+//@   invariant forall j int :: 0 <= j && j <= #i ==> 0 <= old(tableCount(b.Elements, j))
+//@   invariant forall j int :: 0 <= j && j < #i && isTable(b.Elements[j]) ==> old(tableCount(b.Elements, j)) < len(tables)
+//@   invariant forall j int :: 0 <= j && j < #i && isTable(b.Elements[j]) ==> tables[old(tableCount(b.Elements, j))] == b.Elements[j].(*Table)
+//@   decreases len(b.Elements) - #i
